@@ -24,6 +24,7 @@ type violRec struct {
 	Sig    kf.Sig         `json:"sig"`
 	Count  int            `json:"count"`
 	Key    [4]int         `json:"key"` // config, mode, query rank, call: enumeration order
+	ByCall map[string]int `json:"by_call,omitempty"`
 	Replay map[string]any `json:"replay"`
 }
 
@@ -74,9 +75,18 @@ func (e *evaluator) clean(s string) string {
 
 func (e *evaluator) report(sig kf.Sig, key [4]int, replay func() map[string]any) {
 	k := sig.String()
+	call := ""
+
+	if key[3] >= 0 && key[3] < len(calls) && sig["call"] == "" {
+		call = calls[key[3]].Name
+	}
 
 	if v, ok := e.out.Viols[k]; ok {
 		v.Count++
+
+		if call != "" {
+			v.ByCall[call]++
+		}
 
 		if keyLess(key, v.Key) {
 			v.Key = key
@@ -86,7 +96,12 @@ func (e *evaluator) report(sig kf.Sig, key [4]int, replay func() map[string]any)
 		return
 	}
 
-	e.out.Viols[k] = &violRec{Sig: sig, Count: 1, Key: key, Replay: replay()}
+	v := &violRec{Sig: sig, Count: 1, Key: key, Replay: replay()}
+	if call != "" {
+		v.ByCall = map[string]int{call: 1}
+	}
+
+	e.out.Viols[k] = v
 }
 
 func keyLess(a, b [4]int) bool {
@@ -534,7 +549,7 @@ type evalRes struct {
 
 // explain is called for an evaluation with findings (both sides pristine
 // again). It asks the kernel the normalised questions and reports.
-func (e *evaluator) explain(ci, mode, qrank, callIdx int, cs callSpec, comps []string, q string, r evalRes, links []Link) error {
+func (e *evaluator) explain(ci, mode, qrank, callIdx int, cs callSpec, comps []string, q, dd string, r evalRes, links []Link) error {
 	w := e.w
 	key := [4]int{ci, mode, qrank, callIdx}
 
@@ -629,9 +644,20 @@ func (e *evaluator) explain(ci, mode, qrank, callIdx int, cs callSpec, comps []s
 		return sig
 	}
 
+	// dd (what the worst ".." follows) qualifies the lexical cleaning of the
+	// query only
+	normSig := func(norm string) kf.Sig {
+		d := "-"
+		if strings.Contains(norm, "query-cleaned") || strings.Contains(norm, "query-absolute-cleaned") {
+			d = dd
+		}
+
+		return kf.Sig{"kind": "normalised", "norm": norm, "dd": d}
+	}
+
 	switch {
 	case explained != nil:
-		e.report(kf.Sig{"call": cs.Name, "kind": "normalised", "norm": explained.v.name}, key, replay(explained.v.name, explained.rk, finding{}))
+		e.report(normSig(explained.v.name), key, replay(explained.v.name, explained.rk, finding{}))
 	case len(tries) == 0:
 		cls := e.classify(mode, q)
 		for _, f := range r.fs {
@@ -653,7 +679,7 @@ func (e *evaluator) explain(ci, mode, qrank, callIdx int, cs callSpec, comps []s
 		// normalising changes the comparison without settling it: two causes
 		for _, t := range tries {
 			if !sameFindings(t.fs, r.fs) || t.rk.Kind != r.rk.Kind {
-				e.report(kf.Sig{"call": cs.Name, "kind": "normalised", "norm": t.v.name}, key, replay(t.v.name, t.rk, finding{}))
+				e.report(normSig(t.v.name), key, replay(t.v.name, t.rk, finding{}))
 
 				break
 			}
@@ -679,6 +705,7 @@ func (e *evaluator) evalQuery(ci, mode, qrank int, comps []string, links []Link)
 	var (
 		lk       fsx.Res
 		final    string
+		dd       string // what the worst ".." of the query follows (lazily computed)
 		pathDesc = modeNames[mode] + ":" + rel
 	)
 
@@ -751,7 +778,12 @@ func (e *evaluator) evalQuery(ci, mode, qrank int, comps []string, links []Link)
 		book(cs, r)
 
 		if len(r.fs) > 0 {
-			if err := e.explain(ci, mode, qrank, i, cs, comps, q, r, links); err != nil {
+			if dd == "" {
+				// both sides are pristine here
+				_, dd = w.classifyPath(mode, comps)
+			}
+
+			if err := e.explain(ci, mode, qrank, i, cs, comps, q, dd, r, links); err != nil {
 				return err
 			}
 		}
@@ -769,7 +801,7 @@ func (w *world) callString(cs callSpec, q string) string {
 }
 
 // runWorker evaluates the configurations ci with (ci+rot) % n == shard.
-func runWorker(tier, stageName string, shard, n, rot int, deadline time.Time, outPath string) int {
+func runWorker(tier, stageName string, shard, n, rot, onlyConfig int, deadline time.Time, outPath string) int {
 	syscall.Umask(0o022)
 
 	// the live heap is a few MB and every evaluation allocates: collect less often
@@ -801,7 +833,7 @@ func runWorker(tier, stageName string, shard, n, rot int, deadline time.Time, ou
 	out := &workerOut{Stage: stageName, Shard: shard, Classes: map[string]int{}, Viols: map[string]*violRec{}}
 	e := &evaluator{w: w, sp: newSpace(st.NLinks), st: st, out: out}
 
-	// watchdog: a single evaluation that does not finish within 60 s is a hang
+	// watchdog: a single evaluation that does not finish within 120 s is a hang
 	// (four orders of magnitude above a legitimate evaluation)
 	go func() {
 		last, since := int64(-1), time.Now()
@@ -815,7 +847,7 @@ func runWorker(tier, stageName string, shard, n, rot int, deadline time.Time, ou
 				continue
 			}
 
-			if time.Since(since) > 60*time.Second {
+			if time.Since(since) > 120*time.Second {
 				cur := ""
 				if p := e.cur.Load(); p != nil {
 					cur = *p
@@ -842,8 +874,23 @@ func runWorker(tier, stageName string, shard, n, rot int, deadline time.Time, ou
 	first, firstHash := -1, uint64(0)
 	done := true
 
-	for ci := 0; ci < total; ci++ {
-		if (ci+rot)%n != shard {
+	// VERIF_SEED rotates where the enumeration starts (matters only when the
+	// budget cuts a stage short); shard s takes every n-th configuration
+	if rot < 0 {
+		rot = -rot
+	}
+
+	off := (rot * 7919) % total
+
+	for i := 0; i < total; i++ {
+		ci := (off + i) % total
+
+		if onlyConfig >= 0 {
+			// confirmation run of one configuration after a worker died or hung
+			if ci != onlyConfig {
+				continue
+			}
+		} else if i%n != shard {
 			continue
 		}
 
